@@ -301,7 +301,8 @@ int splinetable_grideval(struct splinetable* table, const double* const* coords,
 //This exists to give C callers a way to call operator delete, since grideval
 //allocates with operator new which _might_ not be the same as malloc.
 void ndsparse_destroy(struct ndsparse* nd){
-	delete nd;
+	//the object was created as the C++ type, whose destructor releases the arrays
+	delete static_cast<photospline::ndsparse*>(nd);
 }
 #endif //PHOTOSPLINE_INCLUDES_SPGLAM
 	
